@@ -1575,6 +1575,133 @@ def run_ndphase_stream(ctx, n):
     ctx.cov["nd_phase_stream"] = stats
 
 
+# ------------------------------------------------------------------ Jacobian / Hessian probes: columns follow the requested list
+def gen_jac_case(rng, k=0):
+    base = [["T2"], ["alpha", "T2"], ["T2", "alpha"], ["alpha", "T2", "T1"], ["T1", "alpha"], ["alpha"]][k % 6]
+    pos = (k // 6 + k) % (len(base) + 1)                      # 'magnitude' at every position of the list over a run
+    variables = base[:pos] + ["magnitude"] + base[pos:]
+    if rng.random() < 0.2:
+        variables.insert(rng.randint(0, len(variables)), "unused")          # a variable no operator depends on: zero column
+    case = {"variables": variables, "attr": rng.choice(["F0", "F0", "Z0"]),
+            "where": ["override", "in_sequence", "override_list", "override"][k % 4],
+            "alpha": float(rng.choice([120.0, 150.0, 165.0])), "T1": float(rng.choice([700.0, 900.0])),
+            "T2": float(rng.choice([35.0, 45.0, 80.0])), "tau": float(rng.choice([4.0, 6.0])), "necho": rng.choice([2, 3, 4]),
+            "hessian2": rng.choice([None, None, ["T2"], ["alpha", "magnitude"], ["magnitude", "T2", "alpha"]])}
+    return case
+
+
+def jac_sequence(case, diff, adc, alpha=None, T1=None, T2=None):
+    import epgpy as epg
+    a = case["alpha"] if alpha is None else alpha
+    t1 = case["T1"] if T1 is None else T1
+    t2 = case["T2"] if T2 is None else T2
+    rfc = epg.T(a, 0, **({"order1": "alpha", "order2": "alpha"} if diff else {}))
+    rlx = epg.E(case["tau"], t1, t2, duration=True, **({"order1": ["T1", "T2"], "order2": "T2"} if diff else {}))
+    return [epg.T(90, 90)] + [epg.S(1), rlx, rfc, epg.S(1), rlx, adc] * case["necho"]
+
+
+def jac_case_disagrees(case):
+    import epgpy as epg
+    attr, variables = case["attr"], case["variables"]
+    n = case["necho"]
+
+    def plain(**kw):
+        return np.asarray(epg.simulate(jac_sequence(case, False, epg.Adc(attr), **kw))).reshape(n)
+
+    def run(probe):
+        """values recorded by `probe` (a Jacobian / Hessian object) at every echo, with the case's placement"""
+        if case["where"] == "in_sequence":
+            t, v = epg.simulate(jac_sequence(case, True, probe), adc_time=True)
+        elif case["where"] == "override":
+            t, v = epg.simulate(jac_sequence(case, True, epg.Adc(attr)), probe=probe, adc_time=True)
+        else:
+            t, (v, f0) = epg.simulate(jac_sequence(case, True, epg.Adc(attr)), probe=[probe, attr], adc_time=True)
+            if not np.allclose(np.asarray(f0).reshape(n), ref["magnitude"], rtol=1e-12, atol=1e-14):
+                return None, "the plain probe next to the Jacobian in the probe= list differs from a plain simulation"
+        if not np.array_equal(np.asarray(t, dtype=float).reshape(-1), 2 * case["tau"] * np.arange(1, n + 1)):
+            return None, "acquisition times %s are not the cumulative echo times" % np.asarray(t).tolist()
+        return np.asarray(v), None
+    ref = {"magnitude": plain(), "unused": np.zeros(n)}
+    for var in ("alpha", "T1", "T2"):
+        if var in variables:
+            h = 1e-4 * case[var]
+            ref[var] = (plain(**{var: case[var] + h}) - plain(**{var: case[var] - h})) / (2 * h)
+    jac, why = run(epg.Jacobian(variables, probe=attr))
+    if why:
+        return why
+    if jac.shape != (n, 1, len(variables)):
+        return "Jacobian(%s) has shape %s for %d echoes" % (variables, jac.shape, n)
+    for i, var in enumerate(variables):
+        col = jac[:, 0, i]
+        if not np.allclose(col, ref[var], rtol=2e-5, atol=1e-7):
+            return "Jacobian(%s, probe=%r) %s: column %d is not %r: got %s, expected (signal / central finite differences) %s" % (
+                variables, attr, case["where"], i, var, col.tolist(), ref[var].tolist())
+    # the same list reordered: the same columns, reordered (exact)
+    perm = list(reversed(range(len(variables))))
+    jac2, why = run(epg.Jacobian([variables[i] for i in perm], probe=attr))
+    if why:
+        return why
+    if not np.array_equal(jac2, jac[..., perm]):
+        return "Jacobian with the reversed variable list is not the Jacobian with its columns reversed (%s)" % variables
+    # Hessian: rows follow variables1, columns variables2; a 'magnitude' row / column holds first derivatives
+    v2 = case["hessian2"] or variables
+    hes, why = run(epg.Hessian(variables, case["hessian2"], probe=attr))
+    if why:
+        return why
+    if hes.shape != (n, 1, len(variables), len(v2)):
+        return "Hessian(%s, %s) has shape %s" % (variables, v2, hes.shape)
+    for i, a in enumerate(variables):
+        for j, b in enumerate(v2):
+            if a == "magnitude" and b == "magnitude":
+                continue
+            if a == "magnitude" or b == "magnitude":
+                other = b if a == "magnitude" else a
+                want = ref[other] if other in ref else None
+                ok = want is None or np.allclose(hes[:, 0, i, j], want, rtol=2e-5, atol=1e-7)
+                label = "d/d%s" % other
+            else:
+                one, why = run(epg.Hessian([a], [b], probe=attr))
+                if why:
+                    return why
+                want = one[:, 0, 0, 0]
+                ok = np.array_equal(hes[:, 0, i, j], want)
+                label = "Hessian([%r], [%r])" % (a, b)
+            if not ok:
+                return "Hessian(%s, %s, probe=%r) %s: entry (%d, %d) is not %s: got %s, expected %s" % (
+                    variables, v2, attr, case["where"], i, j, label, hes[:, 0, i, j].tolist(), np.asarray(want).tolist())
+    return None
+
+
+def run_jac_stream(ctx, n):
+    """Jacobian / Hessian probes in the sequence and as probe= override, 'magnitude' at every position of the list"""
+    stats = {"cases": 0, "where": {}, "magnitude_positions": {}}
+    reported = 0
+    try:
+        in_seq_ok = grouping_probe("jacobian_in_sequence") is None      # reported by run_grouping_probes when not
+    except Exception:
+        in_seq_ok = False
+    stats["in_sequence_placement_available"] = in_seq_ok
+    for i in range(n):
+        case = gen_jac_case(ctx.rng, i)
+        if case["where"] == "in_sequence" and not in_seq_ok:
+            case["where"] = "override"
+        try:
+            why = jac_case_disagrees(case)
+        except Exception as e:
+            why = "simulate raised %s with Jacobian/Hessian(%s): %s" % (type(e).__name__, case["variables"], str(e)[:160])
+        stats["cases"] += 1
+        stats["where"][case["where"]] = stats["where"].get(case["where"], 0) + 1
+        key = "%d/%d" % (case["variables"].index("magnitude"), len(case["variables"]))
+        stats["magnitude_positions"][key] = stats["magnitude_positions"].get(key, 0) + 1
+        ctx.count(("jac", repr(case)), nontrivial=True)
+        if why:
+            reported += 1
+            if reported <= 4:
+                ctx.report(why, {"jac_case": case}, found_input=True,
+                           signature={"stream": "jacobian", "where": case["where"], "why": why[:12]})
+    ctx.cov["jacobian_stream"] = stats
+
+
 # ------------------------------------------------------------------ phasor stream (Interval inside Coq)
 PHEADER = """From Coq Require Import Reals.
 From Interval Require Import Tactic.
@@ -1666,6 +1793,22 @@ def grouping_probe(name):
         if t.shape != ref.shape or not np.array_equal(t, ref):
             return "simulate(adc_time=True) reports %s, cumulative sums are %s" % (t.tolist(), ref.tolist())
         return None
+    if name == "jacobian_in_sequence":
+        # Jacobian / Hessian are Probe operators: placed in the sequence they must record like ADC does
+        from epgpy import diff
+        def seq(adc):
+            return [epg.T(90, 90), epg.S(1), epg.E(5.0, 900.0, 45.0, order1="T2", order2="T2", duration=True), epg.T(150, 0), epg.S(1),
+                    epg.E(5.0, 900.0, 45.0, order1="T2", order2="T2", duration=True), adc]
+        for label, pb in (("Jacobian", diff.Jacobian(["T2", "magnitude"])), ("Hessian", diff.Hessian(["magnitude", "T2"]))):
+            ref = np.asarray(epg.simulate(seq(epg.ADC), probe=pb))
+            try:
+                got = np.asarray(epg.simulate(seq(pb)))
+            except Exception as e:
+                return "simulate([..., %s([...])]) with the probe placed in the sequence raised %s: %s (as probe= override it works)" % (
+                    label, type(e).__name__, e)
+            if got.shape != ref.shape or not np.array_equal(got, ref):
+                return "%s placed in the sequence records %s, as probe= override %s" % (label, got.tolist(), ref.tolist())
+        return None
     if name == "multi_explicit_duration":
         m = operator.MultiOperator([epg.T(90, 90), epg.S(1)], duration=5.0)
         t1 = [float(t) for t in epg.get_adc_times([m, epg.ADC])]
@@ -1681,6 +1824,7 @@ GROUPING_SIGNATURES = {
     "att_grid": {"call": "modify", "att": "array", "T": "batched", "expand": True},
     "multi_explicit_duration": {"call": "MultiOperator", "duration": "explicit", "timing": "ignored"},
     "times_scalar_then_array": {"call": "simulate", "adc_time": True, "asarray": True, "times": "scalar then array"},
+    "jacobian_in_sequence": {"call": "simulate", "probe": "Jacobian/Hessian in sequence", "raises": "AttributeError"},
 }
 
 
@@ -1704,6 +1848,7 @@ def run(ctx):
     run_adur_stream(ctx, 25 if quick else 400)
     run_atime_stream(ctx, 40 if quick else 600)
     run_ndphase_stream(ctx, 21 if quick else 210)
+    run_jac_stream(ctx, 24 if quick else 240)
     run_phasor_stream(ctx, 12 if quick else 120)
     run_grouping_probes(ctx)
     ctx.cov["trusted_base"] += [
@@ -1765,6 +1910,11 @@ def replay(ctx, rp):
             why = atime_case_disagrees(case)
         except Exception as e:
             why = "simulate()/get_adc_times raised %s: %s" % (type(e).__name__, e)
+    elif "jac_case" in rp:
+        try:
+            why = jac_case_disagrees(rp["jac_case"])
+        except Exception as e:
+            why = "simulate raised %s: %s" % (type(e).__name__, e)
     elif "ndphase_case" in rp:
         try:
             why = ndphase_case_disagrees(rp["ndphase_case"])
